@@ -278,7 +278,11 @@ func (f *fnState) specVal(e spec.Expr, c *specCtx) SV {
 		switch u := typeUnder(b.Typ).(type) {
 		case *types.Slice:
 			if f.quant > 0 || !isByte(u.Elem()) {
-				return f.heapAccess(c.env, fmt.Sprintf("(elt (s-loc %s) %s)", b.T, i.T), u.Elem(), nil, nil, nil)
+				et := fmt.Sprintf("(elt (s-loc %s) %s)", b.T, i.T)
+				if f.quant > 0 {
+					f.quantElts = append(f.quantElts, et)
+				}
+				return f.heapAccess(c.env, et, u.Elem(), nil, nil, nil)
 			}
 			return f.heapAccess(c.env, locOff(fmt.Sprintf("(s-loc %s)", b.T), i.T), u.Elem(), nil, nil, nil)
 		case *types.Array:
@@ -342,8 +346,25 @@ func (f *fnState) specVal(e spec.Expr, c *specCtx) SV {
 			decls = append(decls, fmt.Sprintf("(%s %s)", name, s))
 		}
 		f.quant++
+		savedElts := f.quantElts
+		f.quantElts = nil
 		body := f.specBool(x.Body, &n)
+		elts := f.quantElts
+		f.quantElts = savedElts
 		f.quant--
+		// triggers: element locations indexed by the bound variables (arithmetic-free); a clause without
+		// such a term keeps the solver's own choice
+		var pats []string
+		if len(x.Vars) == 1 {
+			name := "q_" + x.Vars[0].Name
+			seenP := map[string]bool{}
+			for _, et := range elts {
+				if strings.HasSuffix(et, " "+name+")") && !seenP[et] && !strings.Contains(et[:len(et)-len(name)-1], name) {
+					seenP[et] = true
+					pats = append(pats, et)
+				}
+			}
+		}
 		q := "exists"
 		if x.Forall {
 			q = "forall"
@@ -352,6 +373,13 @@ func (f *fnState) specVal(e spec.Expr, c *specCtx) SV {
 			}
 		} else if len(guards) > 0 {
 			body = and(append(guards, body)...)
+		}
+		if len(pats) > 0 && x.Forall {
+			var ps []string
+			for _, p := range pats {
+				ps = append(ps, ":pattern ("+p+")")
+			}
+			return boolSV(fmt.Sprintf("(%s (%s) (! %s %s))", q, strings.Join(decls, " "), body, strings.Join(ps, " ")))
 		}
 		return boolSV(fmt.Sprintf("(%s (%s) %s)", q, strings.Join(decls, " "), body))
 	}
@@ -592,6 +620,14 @@ func (f *fnState) specCall(x *spec.Call, c *specCtx) SV {
 		n.env = c.old
 		n.inOld = true
 		return f.specVal(x.Args[0], &n)
+	case "atentry":
+		// atentry(e), in a loop invariant: e evaluated in the state in which the loop was entered
+		if c.invLoop == nil || c.invLoop.entryEnv == nil {
+			f.fail("%s: atentry() is only meaningful in a loop invariant", f.fn)
+		}
+		n := *c
+		n.env = c.invLoop.entryEnv
+		return f.specVal(x.Args[0], &n)
 	case "oh":
 		// oh(e): e with the heap arguments of spec functions taken from the entry state
 		n := *c
@@ -641,6 +677,12 @@ func (f *fnState) specCall(x *spec.Call, c *specCtx) SV {
 		return intSV(f.streamID(arg(0)))
 	case "byte":
 		b, i := arg(0), arg(1)
+		if f.quant > 0 && strings.Contains(i.T, "q_") {
+			// inside a quantifier the byte is named through elt, which gives the clause an arithmetic-free trigger
+			et := fmt.Sprintf("(elt (s-loc %s) %s)", b.T, i.T)
+			f.quantElts = append(f.quantElts, et)
+			return SV{Typ: types.Typ[types.Uint8], Sort: sInt, T: fmt.Sprintf("(select %s %s)", f.heapMapIn(c.env, "E$uint8", sInt), et)}
+		}
 		t := fmt.Sprintf("(select %s %s)", f.heapMapIn(c.env, "E$uint8", sInt), locOff(fmt.Sprintf("(s-loc %s)", b.T), i.T))
 		return SV{Typ: types.Typ[types.Uint8], Sort: sInt, T: t}
 	case "le":
